@@ -114,6 +114,10 @@ fn oracle(case: &[u8], obs: &mut Obs) -> Result<(), String> {
                 let l = c.below(41) as usize;
                 m::NoteRec { n_type: 3, name: b"GNU\0".to_vec(), desc: c.bytes(l) }
             }
+            2 if c.chance(40) => {
+                let l = c.below(16) as usize;
+                m::NoteRec { n_type: 1, name: b"GNU\0".to_vec(), desc: c.bytes(l) }
+            }
             _ => {
                 let nl = c.below(41) as usize;
                 let dl = c.below(41) as usize;
